@@ -55,6 +55,13 @@ def check_equation_array_properties(equation, particle_arrays):
     eq_src = set([x[2:] for x in _src])
     eq_dest = set([x[2:] for x in _dest])
 
+    if equation.no_source and len(eq_src) > 0:
+        # The generated code would read source arrays that are never bound.
+        msg = ("ERROR: Equation {eq_name} has no sources but needs the "
+               "source properties {props}.".format(
+                   eq_name=equation.name, props=sorted(eq_src)))
+        raise RuntimeError(msg)
+
     def _check_array(array, eq_props, errors):
         """Updates the `errors` with any errors.
         """
